@@ -68,6 +68,7 @@ func runC31(c *Ctx) {
 		fail, n := f.ErrEdgesOf(run, true)
 		w = f.AfterEdgesMayReach(fail, nil, nil, setActive)
 		c.Check(n == 1 && w == nil && len(fail) > 0, "failed-OnActivate⇏active", "a failed OnActivate never marks the grain active", c.P.Pos(activate.Decl.Pos()), f.describe(w))
+		c.onlyOnSuccess(f, run, setActive, "active-only-after-successful-OnActivate", "the grain is marked active only over the edge on which OnActivate succeeded", c.P.Pos(activate.Decl.Pos()))
 		// who sets the flag to true
 		for _, u := range c.UsesOf(activated) {
 			if u.Sel == nil || len(u.Path) < 3 {
